@@ -102,3 +102,40 @@ PROPS["C05"] = dict(
     level_note="Reads without the embedded Arrow schema, out-of-domain temporal values, file bytes and layout are not asserted; 'not supported' outcomes are rejections.",
     technique="round-trip oracle on generated inputs, option sets and thread schedules",
 )
+
+PROPS["C12"] = dict(
+    quick=[st("quick", 75)],
+    thorough=[st("thorough", 900)],
+    floor=dict(quick=300, thorough=1000),
+    rule="sections: sweep8/native8/bitw8 (ALL 65,536 i8 and u8 operand pairs for add/sub/mul/div/rem/neg, checked and wrapping, array x array / array x scalar / scalar x array, failing pairs also hidden under nulls as bait), sweep16x (i16/u16 scalar against all 65,536 array values; thorough: every scalar), kernel (Datum API over ints, floats bit-for-bit, Decimal32..256 with any precision/scale, timestamps/dates/durations/intervals with fixed-offset zones; boundary-dense operands), agg (sum/min/max/bit/bool aggregates incl. checked forms, dictionary and run-end inputs, lengths 0..130 and thousands, 12 null pattern classes), boolk (and/or/not/Kleene truth tables), big (i256 vs BigInt), native, dectab, arity (unary/binary/try_* closures called on valid rows only), fixedp; oracle = num-bigint / widened exact arithmetic; class = (section, op, type family, shape, null class, outcome)",
+    level="exploration",
+    level_text="Differential runtime check of arrow-arith / i256 against exact big-integer arithmetic, exhaustive for all 8-bit operand pairs (and all 16-bit scalar x array sweeps in thorough), boundary-dense elsewhere.",
+    level_note="Trusts num-bigint and the harness' own proleptic-Gregorian calendar (self-checked before each run). Float sum association order, NaN payloads, named time zones and interval x non-integral f64 are not asserted.",
+    technique="differential testing against exact big-integer reference arithmetic, exhaustive 8/16-bit operand sweeps",
+)
+
+PROPS["C13"] = dict(
+    quick=[st("quick", 90)],
+    thorough=[st("thorough", 900)],
+    floor=dict(quick=300, thorough=1000),
+    rule="sections: dtype (DataType Display -> FromStr over the grid, every container x unusual field names, random depth-3 types), text (60 types -> Utf8/LargeUtf8/Utf8View -> back under default and custom FormatOptions), grid (ALL 108 x 108 ordered type pairs: can_cast_types vs dispatch on empty and all-null arrays, boundary columns in canonical / random / validity-masked layouts, safe vs strict duality, exact reference values, inverse casts), exh (every value of Int8/UInt8/Int16/UInt16/Float16 against every flat target), gridr and rand (random columns, one container level deep); class = (section, source family -> target family, mode, layout, outcome)",
+    level="exploration",
+    level_text="Runtime oracle over the complete finite type-pair grid of arrow-cast: metamorphic safe/strict duality, exact reference conversion (std integer/float semantics, num-bigint decimals, chrono calendars), inverse-cast identity and format/parse round trips; exhaustive for 8/16-bit sources.",
+    level_note="Trusts the reference model in c13_model.rs. Named time zones, NaN payloads, out-of-domain Time/Date64 values and nullability errors of struct casts are not asserted.",
+    technique="metamorphic (safe/strict duality, inverse cast, format/parse round trip) + reference-model differential over an exhaustive type-pair grid",
+)
+
+PROPS["C17"] = dict(
+    quick=[st("quick", 90)],
+    thorough=[st("thorough", 900)],
+    floor=dict(quick=300, thorough=1000),
+    rule="sections csv-rt / json-rt / avro-rt (writer -> reader round trips over every type each format supports, all writer/reader options under which the text is unambiguous, Avro OCF with 6 codecs and SOE framings), csv-split (RFC 4180 grammar documents vs an independent splitter), json-doc (RFC 8259 grammar documents: all escapes, surrogate pairs, number forms; serde_json as arbiter; JSON written by arrow-json parsed by serde_json), avro-ext (schemas and data written by the independent apache-avro crate read by arrow-avro, and arrow-avro output decoded by apache-avro); class = (section, type class, option class, outcome)",
+    level="exploration",
+    level_text="Round-trip and third-party differential oracles (serde_json, apache-avro, an own RFC 4180 splitter) on generated batches and grammar-generated documents; quick ~90k cases, thorough 25x.",
+    level_note="Trusts serde_json, apache-avro and the 60-line CSV splitter as independent arbiters. Text spelling, non-finite JSON floats, implicit-null map entries and documented lossy Avro mappings are not asserted.",
+    technique="round-trip oracle + differential testing against independent third-party decoders",
+)
+
+# properties whose check is integrated, silent on the unchanged tree modulo listed known
+# findings, and has been shown to see at least one seeded break: only these are claimed
+READY = ["C09", "C10", "C11", "C19", "C20"]
